@@ -362,6 +362,7 @@ void gen(uint64_t seed, int tier, sim::Plan &p) {
             op.thr = t;
             uint64_t k = r.below(100);
             int64_t sz = r.chance(0.7) ? r.pick(sizes) : r.range(1, 300);
+            if (r.chance(0.002)) sz = r.pick(std::vector<int64_t>{70000, 1 << 20}); // rare very large block
             if (k < 28) { op.kind = OP_ACQ; op.a = sz; }
             else if (k < 35) { op.kind = OP_CALLOC; op.a = r.pick(std::vector<int64_t>{1, 2, 4}); op.b = r.pick(std::vector<int64_t>{1, 8, 16, 32}); }
             else if (k < 55) { op.kind = OP_REALLOC; op.a = r.range(0, 1000); uint64_t m = r.below(10); op.b = m == 0 ? 0 : m < 3 ? -1 : (r.chance(0.6) ? r.pick(sizes) : r.range(1, 300)); }
